@@ -451,3 +451,203 @@ Example C07_ttml_to_vtt_styled_example :
   repr_vdoc (tv_norm (conv_ttml_vtt ex_tv_doc)) (tv_style_order ex_tv_doc) (tv_region_order ex_tv_doc) /\
   (exists d', read_vtt ex_tv_dst = Ok d' /\ vtt_to_plain d' = ptrunc 1000000 (ttml_to_plain ex_tv_doc)).
 Proof. exact ex_tv_all. Qed.
+(* ---- styled sources converted into TTML (Model/ConvTtml.v, Proofs/ConvTtmlProofs.v) ----
+   What WriteToTTML sees of the cues the SubRip, WebVTT and SSA readers produce: SubRip - the font colour as tts:color on the
+   run's span, nothing else; WebVTT - the regions map as layout and the cue's region, the STYLE entry as an empty style
+   element; SSA - the title as ttm:title, every style as an empty style element and the event's style as the p's style;
+   every run is its own span.  The library's destination bytes are compared with convert_S_ttml on the styled generated
+   sources (suite convstyledttml).  Theorems, at byte level (Go-exact writer bytes with the default indent, XML parser
+   model, tree reader): when the converted value is representable in TTML ([repr_doc]: at least one cue, times in
+   [0, max_int64], at least one line per cue, no line break inside a run, references closed) and XML-legal ([legal_doc]), the
+   conversion succeeds and the document reads back with the same cues in the same order, times truncated to the
+   millisecond, and per line EXACTLY the same text (the TTML writer inserts no white space between runs: no [nows]
+   normalisation is needed).  In a module because the TTML model shares names with other models. *)
+From Astisub Require Model.Stl Model.PlainStl Model.ConvTtml Proofs.ConvTtmlProofs Model.Ttml Model.TtmlGo Proofs.TtmlDocSpec Model.PlainTtml Model.PlainSsa Model.Ssa.
+Module C07_TTML.
+Import Astisub.Model.Ttml Astisub.Model.TtmlGo Astisub.Proofs.TtmlDocSpec Astisub.Model.PlainTtml Astisub.Model.Ssa Astisub.Model.PlainSsa
+  Astisub.Model.Stl Astisub.Model.PlainStl Astisub.Model.ConvTtml Astisub.Proofs.ConvTtmlProofs.
+Theorem C07_srt_to_ttml_styled : forall l, repr_doc (conv_srt_ttml l) = true -> legal_doc (conv_srt_ttml l) = true ->
+  exists b, to_ttml_bytes (conv_srt_ttml l) = Ok b /\ ttml_dec2 b = Ok (ptrunc 1000000 (srt_to_plain l)).
+Proof. exact srt_to_ttml_styled. Qed.
+Theorem C07_vtt_to_ttml_styled : forall d, repr_doc (conv_vtt_ttml d) = true -> legal_doc (conv_vtt_ttml d) = true ->
+  exists b, to_ttml_bytes (conv_vtt_ttml d) = Ok b /\ ttml_dec2 b = Ok (ptrunc 1000000 (vtt_to_plain d)).
+Proof. exact vtt_to_ttml_styled. Qed.
+Theorem C07_ssa_to_ttml_styled : forall d, repr_doc (conv_ssa_ttml d) = true -> legal_doc (conv_ssa_ttml d) = true ->
+  exists b, to_ttml_bytes (conv_ssa_ttml d) = Ok b /\ ttml_dec2 b = Ok (ptrunc 1000000 (ssa_to_plain d)).
+Proof. exact ssa_to_ttml_styled. Qed.
+(* EBU STL sources: C07_convert_stl_ttml below (Model/ConvStlTtml.v: metadata and the runs' colour reach the writer) *)
+(* file to file *)
+Theorem C07_convert_srt_ttml_styled : forall data l, read_srt data = Ok l ->
+  repr_doc (conv_srt_ttml l) = true -> legal_doc (conv_srt_ttml l) = true ->
+  exists b, convert_srt_ttml data = Ok b /\ ttml_dec2 b = Ok (ptrunc 1000000 (srt_to_plain l)).
+Proof. exact convert_srt_ttml_styled. Qed.
+Example C07_to_ttml_styled_examples :
+  (repr_doc (conv_srt_ttml ex_srt_styled) = true /\ legal_doc (conv_srt_ttml ex_srt_styled) = true) /\
+  (repr_doc (conv_vtt_ttml ex_vtt_styled) = true /\ legal_doc (conv_vtt_ttml ex_vtt_styled) = true) /\
+  (repr_doc (conv_ssa_ttml ex_ssa_styled) = true /\ legal_doc (conv_ssa_ttml ex_ssa_styled) = true).
+Proof. exact (conj ex_srt_styled_ok (conj ex_vtt_styled_ok ex_ssa_styled_ok)). Qed.
+End C07_TTML.
+Print Assumptions C07_TTML.C07_srt_to_ttml_styled.
+Print Assumptions C07_TTML.C07_vtt_to_ttml_styled.
+Print Assumptions C07_TTML.C07_ssa_to_ttml_styled.
+(* ---- styled conversions into EBU STL (Model/ConvStl.v, Proofs/ConvStlProofs.v).  conv_S_stl = what WriteToSTL sees of a cue
+   list the S reader produced: no reader sets an STL attribute, so the times and, per line, the texts of the line items
+   (joined by the writer with a blank), plus of the metadata the title (SSA script info, TTML), the frame rate and the
+   mapped language (TTML).  For every S result whose conversion is representable (stl_conv_ok: stl_plain_ok of the cues
+   with the runs of each line joined by a blank - repertoire, no white space at the ends, 112 bytes, times below 100 h -,
+   the metadata that travels fits the GSI block, and the frame rate is not 30: a 30 fps file has another unit and is
+   covered by C05_write_read_teletext): the conversion succeeds, the STL file read back has the same cues in the same order,
+   times truncated to the 40 ms frame, and per line the same text ONCE BLANKS ARE DISREGARDED (plain_nows / stl_nows: the
+   writer's blank between two runs is the only difference; the read-back itself is given exactly by
+   C07_conversion_into_stl). *)
+From Astisub Require Import Model.Ssa Model.PlainSsa Model.Ttml Model.PlainTtml Model.ConvStl Proofs.ConvStlProofs.
+Theorem C07_conversion_into_stl : forall md rv, stl_conv_ok md (rv_joined rv) ->
+  exists dst, write_conv_stl (md, stl_of_runs rv) = Ok dst /\
+              stl_dec dst = Ok (ptrunc 40000000 (rv_joined rv)) /\
+              plain_nows (ptrunc 40000000 (rv_joined rv)) = plain_nows (ptrunc 40000000 (rv_concat rv)).
+Proof. exact conversion_into_stl. Qed.
+Theorem C07_srt_to_stl_styled : forall l, stl_conv_ok None (rv_joined (srt_runs l)) -> styled_into_stl (conv_srt_stl l) (srt_to_plain l).
+Proof. exact srt_to_stl_styled. Qed.
+Theorem C07_vtt_to_stl_styled : forall d, stl_conv_ok (fst (conv_vtt_stl d)) (rv_joined (vtt_runs d)) -> styled_into_stl (conv_vtt_stl d) (vtt_to_plain d).
+Proof. exact vtt_to_stl_styled. Qed.
+Theorem C07_ssa_to_stl_styled : forall d, stl_conv_ok (fst (conv_ssa_stl d)) (rv_joined (ssa_runs d)) -> styled_into_stl (conv_ssa_stl d) (ssa_to_plain d).
+Proof. exact ssa_to_stl_styled. Qed.
+Theorem C07_ttml_to_stl_styled : forall d, stl_conv_ok (fst (conv_ttml_stl d)) (rv_joined (ttml_runs d)) -> styled_into_stl (conv_ttml_stl d) (ttml_to_plain d).
+Proof. exact ttml_to_stl_styled. Qed.
+(* a TTML cue list with title, language and frame rate 25, two runs in a line, a time off the grid: converted, 1280 bytes,
+   title and language code in the GSI block, read back "Hello world" for the runs "Hello" "world" *)
+Example C07_into_stl_styled_example : stl_conv_ok (fst (conv_ttml_stl ex_tdoc)) (rv_joined (ttml_runs ex_tdoc)).
+Proof. exact ex_tdoc_ok. Qed.
+Print Assumptions C07_conversion_into_stl.
+Print Assumptions C07_srt_to_stl_styled.
+Print Assumptions C07_vtt_to_stl_styled.
+Print Assumptions C07_ssa_to_stl_styled.
+Print Assumptions C07_ttml_to_stl_styled.
+
+(* ---- styled EBU STL SOURCES converted to WebVTT and TTML (Model/ConvStlVtt.v, ConvStlTtml.v; Proofs/ConvStlVttProofs.v,
+   ConvStlTtmlProofs.v).  The source is the cue list ReadFromSTL gives for a file (C05_read_rendered says which one): every
+   row is a list of runs with the italic / underline / boxing flags and, under the teletext standards, colour and double
+   height; the cue carries justification and vertical position.  conv_stl_vtt / conv_stl_ttml = what WriteToWebVTT /
+   WriteToTTML look at:
+     - WebVTT: times; the cue settings align:... line:...% the STL reader derived from justification code and vertical
+       position (ri_align, ri_line); per run the text, and of the teletext colours red / yellow / magenta / cyan a class tag
+       <c.NAME> (the writer's colour table has no name for black, green #008000, blue, white: lost); italic, underline,
+       boxing, double height are lost;
+     - TTML: times; Metadata.Language -> xml:lang (the code of the language table), Metadata.Title -> ttm:title; per run a
+       <span>, with tts:color="#rrggbb" for each of the eight teletext colours; everything else is lost (the frame rate is
+       not written).  The library's bytes go through encoding/xml's EscapeText: convert_stl_ttml_go; the GSI title is a raw
+       byte string, anything in it that is not XML-legal UTF-8 becomes U+FFFD (stlttml_legalb excludes it).
+   Statements: for every STL file the reader accepts whose cue list is representable in the destination
+   (stl_vtt_ok / stlttml_ok, decidable: at least one cue, times 0 .. MaxInt64, run texts a WebVTT cue line / a TTML span can
+   hold; for WebVTT also: no two adjacent runs of one written colour class; for TTML: every cue has a line - a cue without
+   lines reads back with one empty line), the conversion succeeds and the destination read back has the same cues in the
+   same order, times truncated to the millisecond, and per line the text of the runs PUT TOGETHER (stl_to_plain: run texts
+   concatenated).  The STL reader trims every run, so a blank the FILE has between two runs of a row (WriteToSTL puts one
+   there, C07_conversion_into_stl) is not in the cue list and not in the destination: with respect to the rows of the file
+   the text is equal ONCE WHITE SPACE BETWEEN RUNS IS DISREGARDED - "hello" + italic "world" in the file comes out as
+   "helloworld" (ex_stlvtt_file: computed on a written file, the bytes observed on the library).
+   Not covered: WebVTT with adjacent runs of the same colour class (written <c.red>a</c><c.red>b</c>; ex_stlvtt_same_readback
+   computes one such case, the text is preserved there too); negative times (programme start above a time code). *)
+From Astisub Require Import Model.ConvStlVtt Model.ConvStlTtml Proofs.ConvStlVttProofs Proofs.ConvStlTtmlProofs.
+From Astisub Require Proofs.TtmlDocSpec.
+Theorem C07_stl_to_vtt_styled : forall ign data d, read_stl ign data = Ok d -> stl_vtt_ok d ->
+  exists dst, convert_stl_vtt ign data = Ok dst /\ vtt_dec dst = Ok (ptrunc 1000000 (stl_to_plain d)).
+Proof. exact conversion_stl_vtt_file. Qed.
+Theorem C07_stl_to_ttml_styled : forall ign data d, read_stl ign data = Ok d -> stlttml_ok d -> stlttml_legalb d = true ->
+  exists dst, convert_stl_ttml_go ign data = Ok dst /\ ttml_dec dst = Ok (ptrunc 1000000 (stl_to_plain d)).
+Proof. exact conversion_stl_ttml_styled_go. Qed.
+(* the TTML destination read back as a document: title, mapped language, colours and run boundaries are there *)
+Theorem C07_stl_to_ttml_styled_doc : forall d : rdoc, stlttml_ok d ->
+  exists dst, write_ttml_bytes ttml_default_indent (conv_stl_ttml d) = Ok dst /\
+              read_ttml_bytes dst
+              = Ok (mkDoc (Some (mkMeta 0 (rd_title d) [] (TtmlDocSpec.written_lang (rd_lang d)))) [] []
+                          (map (fun it => mkItem (TtmlDocSpec.trunc_ms (ri_st it)) (TtmlDocSpec.trunc_ms (ri_en it)) None None no_attrs
+                                                 (map (map stlttml_run) (ri_lines it))) (rd_items d))).
+Proof. intros d Hd. apply conversion_stl_ttml_styled_doc. rewrite stlttml_repr_eq. exact Hd. Qed.
+(* a written file with "hello" and italic boxed "world" in a row, justification right, vertical position 18 (ex_stlvtt_file
+   has the WebVTT bytes, with  align:right line:73%  and "helloworld"): its cue list is in the domain, two runs then one *)
+Example C07_stl_to_vtt_styled_example :
+  match ex_stlvtt_src with
+  | Ok data => match read_stl false data with
+               | Ok d => stl_vtt_ok d /\ map (fun it => map (fun l => length l) (ri_lines it)) (rd_items d) = [[2%nat; 1%nat]]
+               | _ => False
+               end
+  | _ => False
+  end.
+Proof. vm_compute. split; reflexivity. Qed.
+Print Assumptions C07_stl_to_vtt_styled.
+Print Assumptions C07_stl_to_ttml_styled.
+Print Assumptions C07_stl_to_ttml_styled_doc.
+(* STYLED teletext sources into the five writers (Model/ConvTtx.v; byte-level correspondence against the library through
+   the file API in harness/plain_ttx.go, suite convstyledttx).  ds is ANY delivered list the reader accepts
+   (ttx_feed 0 ds = Ok cs: page auto-detection; with C06_stream_page_auto cs is cues_of for every stream of the class of
+   C06): colour codes, double height / width / size, several runs per row, spaces in front of and behind the texts.
+   conv_ttx_F is what the library hands to the writer of F: per run the text (the reader trimmed it) and a non-nil style
+   carrying the teletext colour and size flags.  What each writer does with it, exactly:
+   - srt, ssa: no teletext attribute is written (none of the four SubRip attributes / no override block); the runs of a line
+     are written one after the other.  vtt: same, a colour the writer has a class for becomes <c.CLASS>..</c>.  The bytes are
+     those of the PLAIN document whose line text is the run texts put together with NOTHING in between (ttx_to_plain): the
+     file reads back as ptrunc unit (ttx_to_plain cs).  No byte of text is lost; a word boundary that was on the page only as
+     the attribute cell (displayed as a space) between two runs, or as spaces next to it, is not in the run texts the reader
+     returns and so is not in the file: "Hello" <red> "red" reads back "Hellored".  This is inside C07's tolerance ("the same
+     text once inter-run whitespace is disregarded") and is recorded as an observation in notes/C06.md.
+   - stl: the writer joins the runs of a line with ONE space: the file reads back as the run texts joined with a single
+     space (ttx_to_plain_spaced), whatever number of spaces / attribute cells was between them on the page; the two views
+     are equal once spaces are disregarded (C07_ttx_spaced_nosp: the normalisation is "delete every byte 0x20").
+   - ttml: one span per run (tts:color from the teletext colour), reads back with the run texts put together.
+   runs_whole: no run text ends with the byte 0xC2 (the writers escape each run on its own and U+00A0 = C2 A0 is the only
+   escaped sequence longer than a byte; run texts of the reader are whole characters).
+   WebVTT is PARTIAL: proved for cues whose runs have no colour or one without a WebVTT class (black, green, blue, white);
+   the full statement is the same without cues_classless.  Red / yellow / magenta / cyan: correspondence only. *)
+From Astisub Require Import Model.TtxRow Model.Ttx Model.ConvTtx Proofs.ConvTtxProofs Proofs.ConvTtxProofs2 Proofs.ConvTtxExamples.
+Theorem C07_ttx_to_srt_styled : forall ds cs, ttx_feed 0 ds = Ok cs -> runs_whole cs = true -> srt_plain_ok (ttx_to_plain cs) ->
+  exists dst, convert_ttx_srt ds = Ok dst /\ srt_dec dst = Ok (ptrunc 1000000 (ttx_to_plain cs)).
+Proof. exact ttx_to_srt_styled. Qed.
+Print Assumptions C07_ttx_to_srt_styled.
+Theorem C07_ttx_to_ssa_styled : forall ds cs, ttx_feed 0 ds = Ok cs -> ssa_plain_ok (ttx_to_plain cs) ->
+  exists dst, convert_ttx_ssa ds = Ok dst /\ ssa_dec dst = Ok (ptrunc ssa_unit (ttx_to_plain cs)).
+Proof. exact ttx_to_ssa_styled. Qed.
+Print Assumptions C07_ttx_to_ssa_styled.
+Theorem C07_ttx_to_ttml_styled : forall ds cs, ttx_feed 0 ds = Ok cs -> TtmlDocSpec.repr_doc (conv_ttx_ttml cs) = true ->
+  exists dst d', convert_ttx_ttml ds = Ok dst /\ read_ttml_bytes dst = Ok d' /\ ttml_to_plain d' = ptrunc 1000000 (ttx_to_plain cs).
+Proof. exact ttx_to_ttml_styled. Qed.
+Print Assumptions C07_ttx_to_ttml_styled.
+Theorem C07_ttx_to_stl_styled : forall ds cs, ttx_feed 0 ds = Ok cs -> stl_plain_ok (ttx_to_plain_spaced cs) ->
+  exists dst, convert_ttx_stl ds = Ok dst /\ stl_dec dst = Ok (ptrunc stl_plain_unit (ttx_to_plain_spaced cs)).
+Proof. exact ttx_to_stl_styled. Qed.
+Print Assumptions C07_ttx_to_stl_styled.
+Theorem C07_ttx_stl_single_run : forall cs, Forall (fun c => Forall (fun l : list trunT => length l = 1%nat) (c_lines c)) cs ->
+  ttx_to_plain_spaced cs = ttx_to_plain cs.
+Proof. exact spaced_single. Qed.
+Print Assumptions C07_ttx_stl_single_run.
+Theorem C07_ttx_spaced_nosp : forall cs, plain_nosp (ttx_to_plain_spaced cs) = plain_nosp (ttx_to_plain cs).
+Proof. exact spaced_nosp. Qed.
+Print Assumptions C07_ttx_spaced_nosp.
+Theorem C07_ttx_to_vtt_styled_partial : forall ds cs, ttx_feed 0 ds = Ok cs -> cues_classless cs = true -> runs_whole cs = true ->
+  vtt_plain_ok (ttx_to_plain cs) ->
+  exists dst, convert_ttx_vtt ds = Ok dst /\ vtt_dec dst = Ok (ptrunc 1000000 (ttx_to_plain cs)).
+Proof. exact ttx_to_vtt_styled_partial. Qed.
+Print Assumptions C07_ttx_to_vtt_styled_partial.
+(* non-vacuity: a two-cue page 888 stream: row 1 "Hello" / red "red" / white " white  ", row 2 double height green "green";
+   then cyan double size "BIG"; an erase page.  Three runs, one run, one run; the texts that come back written out *)
+Example C07_ttx_styled_example_source : ttx_feed 0 ex_styled = Ok ex_styled_cs /\
+  map (fun c => (c_st c, c_en c, map (map (fun r : trunT => (tr_text r, ts_color (tr_sty r), ts_dh (tr_sty r)))) (c_lines c))) ex_styled_cs =
+  [ (0%Z, 2000000000%Z, [ [([72;101;108;108;111], None, None); ([114;101;100], Some 1, None); ([119;104;105;116;101], Some 7, None)];
+                         [([103;114;101;101;110], Some 2, Some true)] ]);
+    (2000000000%Z, 3500000000%Z, [ [([66;73;71], Some 6, None)] ]) ]%N.
+Proof. split; [exact ex_styled_feed | exact ex_styled_shape]. Qed.
+Example C07_ttx_styled_example_srt : exists dst, convert_ttx_srt ex_styled = Ok dst /\
+  srt_dec dst = Ok [ (0%Z, 2000000000%Z, [[72;101;108;108;111;114;101;100;119;104;105;116;101]; [103;114;101;101;110]]); (2000000000%Z, 3500000000%Z, [[66;73;71]]) ]%N.
+Proof. exact ex_styled_to_srt. Qed.
+Example C07_ttx_styled_example_ssa : exists dst, convert_ttx_ssa ex_styled = Ok dst /\
+  ssa_dec dst = Ok [ (0%Z, 2000000000%Z, [[72;101;108;108;111;114;101;100;119;104;105;116;101]; [103;114;101;101;110]]); (2000000000%Z, 3500000000%Z, [[66;73;71]]) ]%N.
+Proof. exact ex_styled_to_ssa. Qed.
+Example C07_ttx_styled_example_ttml : exists dst d', convert_ttx_ttml ex_styled = Ok dst /\ read_ttml_bytes dst = Ok d' /\
+  ttml_to_plain d' = [ (0%Z, 2000000000%Z, [[72;101;108;108;111;114;101;100;119;104;105;116;101]; [103;114;101;101;110]]); (2000000000%Z, 3500000000%Z, [[66;73;71]]) ]%N.
+Proof. exact ex_styled_to_ttml. Qed.
+Example C07_ttx_styled_example_stl : exists dst, convert_ttx_stl ex_styled = Ok dst /\
+  stl_dec dst = Ok [ (0%Z, 2000000000%Z, [[72;101;108;108;111;32;114;101;100;32;119;104;105;116;101]; [103;114;101;101;110]]); (2000000000%Z, 3480000000%Z, [[66;73;71]]) ]%N.
+Proof. exact ex_styled_to_stl. Qed.
+Example C07_ttx_styled_example_vtt : cues_classless ex_classless_cs = true /\ exists dst, convert_ttx_vtt ex_classless = Ok dst /\
+  vtt_dec dst = Ok [ (0%Z, 2000000000%Z, [[72;101;108;108;111;98;108;117;101;119;104;105;116;101]; [103;114;101;101;110]]); (2000000000%Z, 3500000000%Z, [[66;73;71]]) ]%N.
+Proof. split; [exact (proj1 ex_classless_ok) | exact ex_classless_to_vtt]. Qed.
